@@ -1151,7 +1151,13 @@ def queue_call(it, obj, meth, args, kwargs):
         hook = it.w.hooks.get('queue.put')
         if hook:
             hook(it, obj, args)
-        c.prove('%s:no-block/put@%s' % (it.where(), it.callsite or 'site'), z3.Or(ms <= 0, qs < ms))
+        block = kwargs.get('block', args[1] if len(args) > 1 else True)
+        if block is False:
+            # put(..., block=False) never waits: a full bounded queue raises queue.Full instead
+            if not c.branch(z3.Or(ms <= 0, qs < ms), 'put-has-room'):
+                raise Raised('Full')
+        else:
+            c.prove('%s:no-block/put@%s' % (it.where(), it.callsite or 'site'), z3.Or(ms <= 0, qs < ms))
         c.hset(obj, 'qsize', qs + 1)
         c.hset(obj, 'unfinished', un + 1)
         return None
